@@ -1,7 +1,9 @@
 #!/usr/bin/env python3
 """mktable.py ID < dump   — builds /verif/tables/nopanic_<ID>.tsv from the UNGUARDED dump of the
 checker (function, kind, construct, count) and the reviewed reasons in scripts/reasons_<ID>.json:
-a list of [function-substring, kind-or-*, construct-substring-or-*, reason]; first match wins.
+a list of [function-substring, kind-or-*, construct-substring-or-*, reason, optional [guards]]; first match wins.
+The optional guards are substrings of dominating branch conditions (as printed by MIXVET_DUMP_GUARDS=1) that the
+reviewed reason relies on: the checker rejects the entry when one of them no longer dominates the site.
 Sites without a reviewed reason are printed and make the script fail (they stay violations)."""
 import sys, json
 pid = sys.argv[1]
@@ -11,13 +13,15 @@ for line in sys.stdin:
     line = line.rstrip("\n")
     if not line: continue
     fn, kind, det, n = line.split("\t")
-    for f, k, d, reason in rules:
+    for rule in rules:
+        f, k, d, reason = rule[:4]
+        req = " && ".join(rule[4]) if len(rule) > 4 else ""
         if f in fn and (k == "*" or k == kind) and (d == "*" or d in det):
-            out.append("\t".join([fn, kind, det, n, reason])); break
+            out.append("\t".join([fn, kind, det, n, reason, req]).rstrip("\t")); break
     else:
         missing.append(line)
 open(f"/verif/tables/nopanic_{pid}.tsv", "w").write(
-    "# reviewed invariant table for the nopanic check of %s: function<TAB>kind<TAB>construct<TAB>count<TAB>reason\n" % pid
+    "# reviewed invariant table for the nopanic check of %s: function<TAB>kind<TAB>construct<TAB>count<TAB>reason[<TAB>required dominating guards joined by &&]\n" % pid
     + "# a site listed here is protected by an invariant the analysis cannot see; count bounds how many such sites the function may hold\n"
     + "\n".join(out) + "\n")
 print("tabled", len(out), "missing", len(missing))
